@@ -23,7 +23,13 @@ def main():
     props = [p for p in a.props.split(",") if p] or [json.loads(l)["id"] for l in open(os.path.join(V, "properties.jsonl"))]
     wt = tempfile.mkdtemp(prefix="mutrun_", dir="/tmp")
     os.rmdir(wt)
-    r = sh("git -C /repo worktree add -q --detach %s HEAD" % wt)
+    base = "HEAD"
+    mj = os.path.join(os.path.dirname(os.path.abspath(a.patch)), "meta.json")
+    if os.path.exists(mj):
+        b = json.load(open(mj)).get("base_commit", "")
+        if b and " " not in b:
+            base = b            # a patch recorded against an earlier commit of /repo
+    r = sh("git -C /repo worktree add -q --detach %s %s" % (wt, base))
     assert r.returncode == 0, r.stderr
     ev = tempfile.mkdtemp(prefix="mutev_", dir="/tmp")
     out = dict(patch=a.patch, props={}, tests=None, demo=None)
